@@ -28,6 +28,8 @@ pub struct Base {
     pub m: &'static Merchant,
     pub old: [Scalar; 5],
     pub token: (G1Affine, G1Affine),
+    /// the closing signature the customer holds on the same state (close tag in the nonce slot)
+    pub close_sig: Option<(G1Affine, G1Affine)>,
     pub cust: u64,
     pub merch: u64,
     pub old_pair_bytes: Vec<u8>,
@@ -66,10 +68,15 @@ pub fn make_base(m: &'static Merchant, rng: &mut (impl RngCore + CryptoRng), cus
     if !ps_verify_ref(&m.pk, &s1, &s2, &old) {
         return Err("base: the customer's pay token does not verify on its state by the reference".into());
     }
+    let close_sig = match (t.fget("close_state_signature/sigma1").ok().and_then(|b| g1(&b)), t.fget("close_state_signature/sigma2").ok().and_then(|b| g1(&b))) {
+        (Some(a), Some(b)) => Some((a, b)),
+        _ => None,
+    };
     Ok(Base {
         m,
         old,
         token: (s1, s2),
+        close_sig,
         cust: c,
         merch: mb,
         old_pair_bytes: pair,
@@ -223,6 +230,19 @@ pub fn false_plans(b: &Base, rng: &mut (impl RngCore + CryptoRng), a: i64, other
         p.claim_close = p.w.new_close;
         p.claim_lock = p.w.committed_lock;
         v.push(p);
+    }
+    // the closing signature on the old state spent as if it were a pay token, under a nonce that was
+    // never signed: the signed second slot is the close tag, the public nonce is fresh
+    if let Some(cs) = b.close_sig {
+        for (nm_, n) in [("closing-signature-as-pay-token/fresh-nonce", Scalar::random(&mut *rng)), ("closing-signature-as-pay-token/old-nonce", b.old[1])] {
+            let mut p = derive(&t, nm_);
+            p.w.token = cs;
+            p.w.old_state[1] = close_tag_ref();
+            p.nonce_pub = n;
+            p.claim_old = p.w.old_state;
+            p.claim_old[1] = n;
+            v.push(p);
+        }
     }
     // amount / balance deviations (kept inside the range so that only the update equation is false)
     let mut bal = |name: &str, dc: i128, dm: i128, in_state: bool, in_close: bool| {
